@@ -41,6 +41,11 @@ def hostile_pdas():
     yield ('eps_cycle_grow', pd.make(['q0', 'q1', 'q2'], 'ab', 'XY', [('q0', None, None, 'q1', 'X'), ('q1', None, None, 'q0', 'Y'), ('q1', 'a', 'X', 'q2', None), ('q2', 'b', 'Y', 'q2', None)], 'q0', ['q2']))
     yield ('eps_cycle_keep', pd.make(['q0', 'q1'], 'a', 'X', [('q0', None, None, 'q1', None), ('q1', None, None, 'q0', None), ('q1', 'a', None, 'q1', 'X')], 'q0', ['q1']))
     yield ('eps_cycle_shrink', pd.make(['q0', 'q1', 'q2'], 'a', 'X', [('q0', 'a', None, 'q0', 'X'), ('q0', None, None, 'q1', None), ('q1', None, 'X', 'q1', None), ('q1', 'a', None, 'q2', None)], 'q0', ['q2']))
+    # truncated closures: an infinite pushing branch next to a finite branch that leads to acceptance three
+    # epsilon steps away - which configurations are found within a small iteration limit depends on the
+    # order in which pending configurations are taken
+    yield ('order_sensitive_truncation', pd.make(['q0', 'p1', 'p2', 'p3', 'qf'], 'a', 'XY', [('q0', None, None, 'q0', 'X'), ('q0', None, None, 'q0', 'Y'), ('q0', None, None, 'p1', None),
+                                                 ('p1', None, None, 'p2', None), ('p2', None, None, 'p3', None), ('p3', 'a', None, 'qf', None)], 'q0', ['qf']))
     # pop on empty stack impossible
     yield ('pop_on_empty', pd.make(['q0', 'q1'], 'a', 'X', [('q0', 'a', 'X', 'q1', None), ('q0', None, 'X', 'q1', None)], 'q0', ['q1']))
     yield ('pop_on_empty', pd.make(['q0', 'q1'], 'a', 'X', [('q0', 'a', 'X', 'q1', 'X'), ('q0', 'a', None, 'q0', None)], 'q0', ['q1']))
